@@ -373,14 +373,31 @@ func init() {
 	register(&Check{
 		ID:    "C17",
 		Level: "exploration",
-		Rule: "each case is one seeded schedule of a query-lifecycle workload: 2-7 client tasks issue 1-4 queries each (legal and malformed texts) on the synchronous path against a primed dataset, a canceller cancels seeded query ids at seeded instants, a stall fault holds search goroutines back while the fake clock runs (so the 1/2/5 s query time-out fires while waiting, searching and merging), a monitor polls the running/waiting tables; MAX_RUNNING_QUERIES 1-5; pre-emption 0-15% and per-run site delays. Oracle: admission limits at every poll, every query answered once and within a bounded simulated time after faults stop, cancel promptness, empty tables and no extra live tasks after quiescence (exact goroutine-leak detection), later queries still complete, no deadlock/hang/panic. distinct = interleaving fingerprints; non-trivial = more queries than admission slots, or a cancel/stall was injected",
+		Rule: "each case is one seeded schedule of a query-lifecycle workload: 2-7 client tasks issue 1-4 queries each (legal and malformed texts) on the synchronous path against a primed dataset, a canceller cancels seeded query ids at seeded instants, a stall fault holds search goroutines back while the fake clock runs (so the 1/2/5 s query time-out fires while waiting, searching and merging), a monitor polls the running/waiting tables; MAX_RUNNING_QUERIES 1-5; pre-emption 0-15% and per-run site delays. Oracle: admission limits at every poll, every query answered once and within a bounded simulated time after faults stop, cancel promptness, empty tables and no extra live tasks after quiescence (exact goroutine-leak detection), later queries still complete, no deadlock/hang/panic. One history in ten is memory-starved (3 kB - 200 kB budget, so the limiter refuses search memory): every query ends in an error or the complete answer. distinct = interleaving fingerprints; non-trivial = more queries than admission slots, or a cancel/stall was injected",
 		Run: func(c *Ctx) {
 			n := 200
 			if !c.Quick() {
 				n = 15000
 			}
-			c.Explore(n, func(r *rand.Rand, i int) *plan.Plan { return genLifecycle(r, c.Quick()) }, func(res *RunResult) (string, bool, any) {
+			c.Explore(n, func(r *rand.Rand, i int) *plan.Plan {
+				if i%10 == 9 {
+					return genStarved(r)
+				}
+				return genLifecycle(r, c.Quick())
+			}, func(res *RunResult) (string, bool, any) {
 				fp := fingerprintOf(res)
+				if res.Plan.Params["starved"] == true {
+					c.Probe("memory_starved_histories", 1)
+					for _, e := range res.Incs[0].Entries {
+						if e.Kind == "query" && e.Err != "" {
+							c.Probe("starved_query_rejected", 1)
+						}
+					}
+					c.mu.Lock()
+					c.faultCounts["memory_budget"]++
+					c.mu.Unlock()
+					return fp, true, map[string]any{"mem_bytes": res.Plan.Knobs.MemBytes, "fingerprint": fp}
+				}
 				nq, nc, ns := 0, 0, 0
 				for _, op := range res.Plan.Incs[0].Ops {
 					for _, cl := range op.Par {
@@ -412,9 +429,15 @@ func init() {
 				return fp, nq > k.MaxRunning || nc > 0 || ns > 0, map[string]any{"queries": nq, "cancels": nc, "stalls": ns, "knobs": k, "fingerprint": fp}
 			})
 		},
-		Oracle: func(res *RunResult) []Violation { return lifecycleOracle("C17", res) },
+		Oracle: func(res *RunResult) []Violation {
+			if res.Plan.Params["starved"] == true {
+				return starvedOracle("C17", res)
+			}
+			return lifecycleOracle("C17", res)
+		},
 		Assumptions: []string{
-			"the synchronous query path (ParseAndExecutePipeRequest) is driven; the websocket transport is not (stub)",
+			"both the synchronous path (ParseAndExecutePipeRequest) and the websocket route (over an in-memory synchronous pipe) are driven",
+			"memory-starved histories: the limiter's refusal is provoked through memoryLimits.maxMemoryAllowedToUseInBytes; the Go allocator itself never fails",
 			"'for all byte strings' parser totality is a pure input property: only a pool of malformed texts is sampled",
 			"promptness is stated as bounded simulated time after the last stall fault ended, never while faults still flow",
 		},
